@@ -395,7 +395,7 @@ def run(case):
     out = {'expr': str(e)[:300]}
     ILTR.clear_cache()
     try:
-        h1 = limited(120, lambda: X(lt, **opts))
+        h1 = limited(60, lambda: X(lt, **opts))
     except Timeout:
         out['error'] = 'timeout: inverse transform'
         h1 = None
@@ -406,7 +406,10 @@ def run(case):
         out['obs'] = parse_safe(h1)
         if 'unparsed' in out['obs']:
             try:
-                err = limited(60, numeric_roundtrip, h1.sympy, e)
+                hs = h1.sympy
+                if hs.has(sym.Integral):
+                    hs = limited(30, lambda: hs.doit())       # unevaluated convolutions (search only)
+                err = limited(60, numeric_roundtrip, hs, e)
                 out['obs']['numeric_err'] = None if err is None else float(err)
             except BaseException as ex:
                 out['obs']['numeric_err'] = None
